@@ -135,6 +135,15 @@ def _structure(text):
             return "rows are not consecutive"
     if rows and rows[-1][0] != 15:
         return "last row is not the bottom row"
+    # the reader accepts the writer's own output (rows of up to 32 columns) and returns the same characters
+    try:
+        back = SCCReader().read(out).get_captions("en-US")
+    except Exception as e:
+        return "the writer's output is refused by the reader: " + type(e).__name__
+    if len(back) != 1:
+        return "one caption per caption"
+    if "".join(back[0].get_text().split()) != "".join(text.split()):
+        return "characters changed in write + read"
     return ""
 
 
